@@ -60,8 +60,17 @@ def run_history(cfg, hist, tokens=True):
                 try:
                     got = obj.a(mu2, h[2])
                 except Exception as ex:  # noqa: BLE001
-                    events.append({"ev": "query", "q": [h[1] if tokens else 0, h[2]], "eqFresh": False, "aliasFree": True, "refIntact": True,
-                                   "cacheStable": True, "steps": [], "exc": type(ex).__name__})
+                    # a query the library refuses (e.g. the coupling leaves the perturbative range): history
+                    # independence means that a fresh object refuses it in the same way
+                    Couplings.compute = orig
+                    try:
+                        make(cfg).a(mu2, h[2])
+                        same = False
+                    except Exception as ex2:  # noqa: BLE001
+                        same = type(ex2) is type(ex)
+                    Couplings.compute = compute
+                    events.append({"ev": "query", "q": [h[1] if tokens else 0, h[2]], "eqFresh": bool(same), "aliasFree": True,
+                                   "refIntact": _bits(obj.a_ref) == ref0, "cacheStable": True, "steps": [], "exc": type(ex).__name__})
                     continue
                 mine = list(steps)
                 Couplings.compute = orig
@@ -201,6 +210,11 @@ def steps_instance(seed):
     ec.compute_matching_coeffs_up, ec.compute_matching_coeffs_down, Couplings.compute = up, down, compute
     val = None
     try:
+        if rng.random() < 0.5:
+            # an earlier query on the same object (any scale, any nf): the judged value may depend only
+            # on the path dictated by the matching scales, not on what was asked before
+            obj.a(tab[rng.choice(range(1, 7))], rng.choice([3, 4, 5, 6]))
+            del log[:]
         val = obj.a(tab[target[0]], target[1])
         if not np.all(np.isfinite(val)):
             rec["exc"] = "non-finite"
